@@ -285,7 +285,9 @@ def _instantiated_sat(asserts, timeout_ms, linear=False, instantiate=True):
 
 def solve_forked(args):
     """Worker entry point for fork-inherited obligations: no serialisation unless a CLI fall-back is needed."""
-    idx, timeout_ms, use_fallback = args
+    idx, timeout_ms, use_fallback = args[:3]
+    # scale > 1: a second, patient attempt at PROVING an obligation for which only a candidate counter-model was found (no candidate stages)
+    scale = args[3] if len(args) > 3 else 1
     o = _OBLIGS[idx]
     try:
         t0 = time.time()
@@ -305,18 +307,18 @@ def solve_forked(args):
             qf = [a for a in asserts if not _has_quant(a)]
             if len(qf) < len(asserts) and not _has_quant(asserts[-1]):
                 s0 = z3.Solver(ctx=zc)
-                s0.set('timeout', min(4000, timeout_ms))
+                s0.set('timeout', min(4000 * scale, timeout_ms))
                 s0.set('smt.arith.nl', False)
                 s0.add(*qf)
                 if s0.check() == z3.unsat:
                     return str(idx), 'unsat', 'z3-5.1.0(api)', (time.time() - t0) * 1000, None, 'quantifier-free linear abstraction'
                 s0 = z3.Solver(ctx=zc)
-                s0.set('timeout', min(4000, timeout_ms))
+                s0.set('timeout', min(4000 * scale, timeout_ms))
                 s0.add(*qf)
                 if s0.check() == z3.unsat:
                     return str(idx), 'unsat', 'z3-5.1.0(api)', (time.time() - t0) * 1000, None, 'quantifier-free hypotheses'
         sa = z3.Solver(ctx=zc)
-        sa.set('timeout', timeout_ms if o.expect_sat else min(5000, timeout_ms))
+        sa.set('timeout', timeout_ms if o.expect_sat else min(10000 * scale, timeout_ms))
         sa.set('smt.arith.nl', False)
         sa.add(*asserts)
         ra = sa.check()
@@ -354,16 +356,16 @@ def solve_forked(args):
                     _FOUND.value = 1
                 return str(idx), 'sat', 'z3-5.1.0(api)', ms, _model_dict(s.model()), ''
             reason = s.reason_unknown()
-            if o.expect_sat:
+            if o.expect_sat or scale > 1:
                 break
             if _FOUND is not None and _FOUND.value:
                 return str(idx), 'unknown', 'z3-5.1.0(api)', ms, None, reason + ' (fall-back chain skipped: a violation was already found)'
-        if use_fallback:
+        if use_fallback and scale == 1:
             name, r2, backend, ms2, model, reason2 = solve_text((str(idx), o.to_smt2(), min(timeout_ms, 10000), True, True))
             if r2 in ('sat', 'unsat'):
                 return str(idx), r2, backend, (time.time() - t0) * 1000, model, reason2
             reason = '%s | %s' % (reason, reason2)
-        if not o.expect_sat:
+        if not o.expect_sat and scale == 1:
             r3, model3 = _instantiated_sat(asserts, min(timeout_ms, 15000))
             if r3 == 'sat':
                 if _FOUND is not None:
@@ -444,3 +446,32 @@ def discharge(obligs, timeout_ms=30000, procs=None, fallback=True):
         else:
             o.result = r
     return obligs
+
+
+def reprove(obligs, timeout_ms=60000, scale=8):
+    """Patient second attempt at proving obligations for which only a CANDIDATE counter-model exists (found after the complete solvers
+    ran out of time, e.g. on a heavily loaded machine): every proof stage gets `scale` times its normal budget, no candidate stages.
+    Returns the obligations that were proved after all (their verdict is changed to unsat)."""
+    global _OBLIGS, _FOUND
+    if not obligs:
+        return []
+    _OBLIGS = obligs
+    _FOUND = None
+    tasks = [(i, timeout_ms, True, scale) for i in range(len(obligs))]
+    ctx = multiprocessing.get_context('fork')
+    if len(tasks) == 1:
+        results = [solve_forked(tasks[0])]
+    else:
+        with ctx.Pool(min(8, len(tasks))) as pool:
+            results = pool.map(solve_forked, tasks, chunksize=1)
+    proved = []
+    for (idx, r, backend, ms, model, reason) in results:
+        o = obligs[int(idx)]
+        if r == 'unsat':
+            o.result, o.backend, o.reason, o.model = 'unsat', backend, ((reason or '') + ' (proved on the patient second attempt)').strip(), None
+            o.ms += ms
+            proved.append(o)
+        elif r == 'sat':
+            o.reason = (reason or 'exact counter-model on the second attempt')
+            o.model = model or o.model
+    return proved
